@@ -564,3 +564,85 @@ def run(ctx):
                         key='SHAPE:%s:verdict-on-normalised-copy' % q.split('::{')[0])
         if n_vr == 0:
             ctx.ok('C20.2-verdict-on-raw-value', 'date_time', 'no verdict function is applied to the output of %d normalising constructors / conversions' % len(norm))
+
+
+_run_before_tl_rule = run
+
+
+def run(ctx):
+    _run_before_tl_rule(ctx)
+    thread_local_buffers(ctx, 'C20.7-no-leftovers-between-calls')
+
+
+def thread_local_buffers(ctx, rule):
+    """a byte buffer that outlives the call (kept in a thread-local) is emptied before the call puts anything into it"""
+    from ..core import receiver_root as _rr, value_path as _vp
+    P = ctx.P
+    ctx.rule(rule, 'the codec works in buffers of the call; where a byte buffer is kept in a thread-local between calls, every call empties it before it writes into it - emptying it only on the successful way out '
+             'leaves the bytes of a failed call in front of the next result. A rule about what must not be there', floor=0)
+    BUF = ('BytesMut', 'Vec<u8>')
+    EMPTY = ('::clear', '::split', '::split_to', '::truncate', '::split_off')
+    NEUTRAL = ('::reserve', '::reserve_exact', '::try_reserve', '::try_reserve_exact', '::len', '::capacity', '::is_empty', '::as_slice', '::deref', '::deref_mut', '::borrow_mut', '::borrow', '::as_ref', '::as_mut',
+               '::to_vec', '::freeze', '::set', '::take', '::replace', '::drop', '::drop_in_place')
+    n = 0
+    for q in sorted(ctx.F.bodies):
+        if not q.startswith(('erltf::', 'erltf_serde::', 'edp_elixir_terms::', 'edp_client::')) or '::tests::' in q or ctx.F.bodies[q]['kind'] not in ('Fn', 'AssocFn', 'Closure'):
+            continue
+        DB = P.B(q)
+        roots = set()
+        if ctx.F.bodies[q]['kind'] == 'Closure' and '::{closure#' in q:
+            parent = q.rsplit('::{closure#', 1)[0]
+            PB = P.B(parent) if parent in ctx.F.bodies else None
+            if PB is not None and any(any(('thread::local::LocalKey::<' in n_ and n_.rsplit('::', 1)[1].startswith('with')) for n_ in callee_names(t)) for bb, t in PB.calls()):
+                for i in range(2, DB.b['argc'] + 1):
+                    if any(b_ in DB.local_ty(i) for b_ in BUF):
+                        roots.add(('arg', i))
+        for bb, t in DB.calls():
+            if any('thread::local::LocalKey::<' in n_ and n_.rsplit('::', 1)[1] in ('take', 'replace') for n_ in callee_names(t)) and not t['dst'].get('p'):
+                if any(b_ in DB.local_ty(t['dst']['l']) for b_ in BUF):
+                    roots.add(('call', bb))
+        if not roots:
+            continue
+
+        def root_of(op):
+            base, _ = _rr(DB, op)
+            if base is None:
+                return None
+            if base[0] == 'arg' and ('arg', base[1]) in roots:
+                return ('arg', base[1])
+            if base[0] == 'call' and ('call', base[2]) in roots:
+                return ('call', base[2])
+            vp = _vp(DB, op)
+            if any(isinstance(x, str) and 'thread::local::LocalKey::<' in x and x.rsplit('::', 1)[1] in ('take', 'replace') for x in vp):
+                return ('call', 'tl')
+            return None
+        appends, empties = {}, {}
+        for bb, t in DB.calls():
+            if bb not in DB.live_blocks():
+                continue
+            names = callee_names(t)
+            for i, ty in enumerate(t.get('aty') or []):
+                if 'mut' not in ty or not any(b_ in ty for b_ in BUF):
+                    continue
+                r = root_of(t['args'][i])
+                if r is None:
+                    continue
+                if any(n_.endswith(EMPTY) for n_ in names):
+                    empties.setdefault(r, []).append(bb)
+                elif any(n_.endswith(NEUTRAL) for n_ in names):
+                    pass
+                else:
+                    appends.setdefault(r, []).append((bb, names[0] if names else '?'))
+        name = q.split('::{')[0].rsplit('::', 1)[1]
+        for r, sites in sorted(appends.items(), key=str):
+            n += 1
+            E_ = [e for k_, v_ in empties.items() for e in v_ if k_ == r or 'tl' in (k_[1], r[1])]
+            bad = [(bb, nm) for bb, nm in sites if not any(e != bb and DB.block_dominates(e, bb) for e in E_)]
+            if bad:
+                ctx.bad(rule, '%s:thread-local-buffer' % name, '%s writes into a byte buffer kept in a thread-local (%s) that has not been emptied first on every way there: '
+                        'what a call that failed half-way left in it comes out in front of, or inside, the next result' % (name, bad[0][1].rsplit('::', 1)[-1]), ctx.where(DB, bad[0][0]),
+                        key='SHAPE:%s:thread-local-buffer-not-emptied-first' % q.split('::{')[0])
+            else:
+                ctx.ok(rule, '%s:thread-local-buffer' % name, 'emptied before anything is written into it', ctx.where(DB, sites[0][0]))
+    if n == 0:
+        ctx.ok(rule, 'none', 'no byte buffer is kept in a thread-local')
